@@ -53,7 +53,7 @@ var distinctPool = []string{
 var textPool = []string{
 	"hello", "Hello World", "<p>html &amp; stuff</p>", "say \"hi\"", `C:\new\table`, "line1\nline2", "tab\there",
 	"42", "true", "[1,2]", `{"a":1}`, "null", `\u0041`, `\\u0041`, "\u00e9t\u00e9", "\U0001F600 smile", "\u2028sep", "a", "\\", "\"",
-	"x\x01y", " leading", "trailing ", "-",
+	"x\x01y", " leading", "trailing ", "-", "before\u2028after\u2029end",
 }
 
 func (g *Gen) Text() []byte {
